@@ -19,7 +19,7 @@ func init() {
 		Run:   runC13,
 		Explanation: "Decides clauses C13.1-C13.5 of DESIGN.md on the function that issues ControllerRevisions.Delete and on the revision lister: (1) the live map is initialised with the names of both revision parameters and receives, in an unguarded loop over all pods, each pod's revision label; it is never cleared; every element appended to the deletable slice has the fact !live[rev.Name]; " +
 			"(2) the delete loop walks, from index 0 upwards, the prefix history[:len-limit] taken under the fact len(history) > limit with limit == *spec.revisionHistoryLimit; the caller sorts the same slice with SortControllerRevisions before; the comparator orders by Revision then creation time then name; " +
-			"(3) every element the lister returns has passed the owner test (no controller, or controller UID == set UID); (4) with more than one List over the resource, elements are de-duplicated by name (append only after a not-seen test and marking); (5) ControllerRevisions.Delete has a single caller. NOT decided: 'at most limit remain' as arithmetic.",
+			"(3) every element the lister returns has passed the owner test (no controller, or controller UID == set UID); (4) with more than one List over the resource, elements are de-duplicated by name (append only after a not-seen test and marking); (5) ControllerRevisions.Delete has a single caller. The live set is seeded with two ControllerRevision parameters that every caller takes from getStatefulSetRevisions of the same reconcile; the deleted position is below (non-live revisions) - limit by facts at the Delete call, positions ascend from 0 and no iteration skips its delete. NOT decided: 'at most limit remain' as arithmetic.",
 	})
 }
 
